@@ -223,6 +223,26 @@ def sweep_enclosing_end(top, knobs, rng):
             out.append(make_case(spec, knobs, {"sweep": mech,
                                                "target": target['id'],
                                                "off": off}))
+    # depth 3: the grand-parent ends too, shortly after the parent did, i.e.
+    # while the nested run is handling its first cancellation (second
+    # cancellation landing in its tidying or in its shutdown phase)
+    grand = parents[parent['id']]
+    if grand is not None:
+        gsr = hist.sr(grand['id'])
+        if gsr.begin is not None:
+            shift = p0 - gsr.begin[1]
+            some = offs if len(offs) <= 6 else sorted(rng.sample(offs, 6))
+            for off in some:
+                for delta in (0.0, 0.125, 0.25, 0.5, 1.0):
+                    spec = S.clone(top)
+                    snodes, _ = S.index(spec)
+                    snodes[parent['id']]['timeout'] = off
+                    snodes[grand['id']]['timeout'] = shift + off + delta
+                    if S.admissible(spec):
+                        out.append(make_case(spec, knobs, {
+                            "sweep": "double-timeout",
+                            "target": target['id'], "off": off,
+                            "delta": delta}))
     return out
 
 
@@ -254,6 +274,8 @@ def _generic_stats(run, hist, stats):
             stats[key] = stats.get(key, 0) + n
     n_raise = n_cancel = n_sdcancel = n_again = 0
     for h in hist.nodes.values():
+        if h.is_sched and len(h.cancel_req) >= 2 and h.enters:
+            bump('fault:nested_run_cancelled_twice')
         for _, _, kind in h.exits:
             if kind == 'cancelled':
                 if h.is_sched:
